@@ -201,3 +201,15 @@ impl core::ops::Deref for Bytes {
     #[verifier::external_body]
     fn deref(&self) -> (r: &[u8]) ensures r@ == self@ { unimplemented!() }
 }
+
+pub assume_specification[ i32::wrapping_neg ](x: i32) -> (r: i32)
+    ensures
+        x != i32::MIN ==> r == -x,
+        x == i32::MIN ==> r == i32::MIN,
+;
+
+// used at T = u8 only
+pub assume_specification<T: Clone>[ <[T]>::to_vec ](s: &[T]) -> (r: Vec<T>)
+    ensures
+        r@ =~= s@,
+;
